@@ -344,6 +344,34 @@ func (p *PKI) RootPool() *x509.CertPool {
 }
 
 // MakeCRL issues a DER CRL (issuer needs KeyUsageCRLSign, which MakeCert gives every CA).
+// MakeCRLUTF8 is MakeCRL with the issuer name written with UTF8String values where
+// the issuer's certificate uses PrintableString: another encoding of the same name
+// (RFC 5280 section 7.1), as a CA's CRL tooling may produce.
+func MakeCRLUTF8(r *rand.Rand, issuer *Cert, revoked []*big.Int, thisUpdate, nextUpdate time.Time, number int64) ([]byte, error) {
+	var rdns pkix.RDNSequence
+	if _, err := asn1.Unmarshal(issuer.Cert.RawSubject, &rdns); err != nil {
+		return nil, err
+	}
+	for i := range rdns {
+		for j := range rdns[i] {
+			if sv, ok := rdns[i][j].Value.(string); ok {
+				rdns[i][j].Value = asn1.RawValue{Class: asn1.ClassUniversal, Tag: asn1.TagUTF8String, Bytes: []byte(sv)}
+			}
+		}
+	}
+	raw, err := asn1.Marshal(rdns)
+	if err != nil {
+		return nil, err
+	}
+	cp := *issuer.Cert
+	cp.RawSubject = raw
+	tmpl := &x509.RevocationList{Number: big.NewInt(number), ThisUpdate: thisUpdate, NextUpdate: nextUpdate, SignatureAlgorithm: x509.ECDSAWithSHA256}
+	for _, s := range revoked {
+		tmpl.RevokedCertificateEntries = append(tmpl.RevokedCertificateEntries, x509.RevocationListEntry{SerialNumber: s, RevocationTime: thisUpdate})
+	}
+	return x509.CreateRevocationList(entropy(r), tmpl, &cp, issuer.Key)
+}
+
 func MakeCRL(r *rand.Rand, issuer *Cert, revoked []*big.Int, thisUpdate, nextUpdate time.Time, number int64) ([]byte, error) {
 	tmpl := &x509.RevocationList{Number: big.NewInt(number), ThisUpdate: thisUpdate, NextUpdate: nextUpdate, SignatureAlgorithm: x509.ECDSAWithSHA256}
 	for _, s := range revoked {
